@@ -361,13 +361,21 @@ logical_and = _mk2('bitwise_and')
 logical_or = _mk2('bitwise_or')
 
 
+def _wrap(x, res):
+    """ufuncs hand their result to the __array_wrap__ of an array-like input (dimarray relies on it)"""
+    w = getattr(x, '__array_wrap__', None)
+    if w is not None and not isinstance(x, ndarray) and isinstance(res, ndarray):
+        return w(res)
+    return res
+
+
 def _unary(fn, x, kind=None):
     if isinstance(x, ndarray):
         k = kind or x.dtype.kind
         return ndarray(x.shape, k, [fn(c) for c in x._d])
     if isscalar(x):
         return fn(x)
-    return _unary(fn, asarray(x), kind)
+    return _wrap(x, _unary(fn, asarray(x), kind))
 
 
 def _abs1(c):
@@ -408,7 +416,7 @@ def isnan(x):
         return _isnan_cell(x)
     if x is None:
         raise TypeError("ufunc 'isnan' not supported for the input types")
-    return isnan(asarray(x))
+    return _wrap(x, isnan(asarray(x)))
 
 
 def isfinite(x):
